@@ -207,6 +207,21 @@ C02R(e) ==
              THEN Tag(it.st2 = 0 /\ lastW # <<>> /\ it.used2 = Len(lastW.out), "reuse")
              ELSE {}))
 
+\* C15 (a): every handle is pushed out of band exactly once, in encounter order, and exactly the
+\* reference the writer returned is encoded after the type tag
+C15W(e) ==
+  UnionOver(Len(e.items), LAMBDA i :
+    LET it == e.items[i]
+        S == T(it.tid)
+        x == EncR(S, it.v, RealCtx(ItemRefs(it)), 1)
+        off == Offs(e.items, i)
+        pushed == IF Has(it, "pushed") THEN it.pushed ELSE <<>> IN
+    Tag(it.st = 0, "status")
+    \cup Tag(pushed = x.push, "push-order")
+    \cup Tag(Len(ItemRefs(it)) = Len(x.push), "push-count")
+    \cup (IF it.st = 0 THEN Tag(off + it.n <= Len(e.out) /\ MatchBytes(x.b, SubSeq(e.out, off + 1, off + it.n)), "reference-encoding")
+          ELSE {}))
+
 \* ---- dispatch ---------------------------------------------------------------
 HasPrior(e) == \E i \in 1..Len(e.items) : Has(e.items[i], "prior")
 
@@ -221,6 +236,11 @@ Fails(e) ==
          [] PROP = "C06" -> IF e.e = "WC" THEN C06WC(e) ELSE {}
          [] PROP = "C10" -> IF e.e = "RF" THEN C10Runs(e, FALSE) ELSE IF e.e = "WF" THEN C10Runs(e, TRUE) ELSE {}
          [] PROP = "C11" -> IF e.e = "R" /\ HasPrior(e) THEN C11R(e) ELSE {}
+         \* reads: tag check, resolution and verbatim resolution errors as Dec prescribes (the variant-index
+         \* documentation mismatch is C04's finding, not a statement of C15)
+         [] PROP = "C15" -> IF e.e = "W" THEN C15W(e)
+                            ELSE IF e.e = "R" THEN (LET f == C04R(e) IN IF f = {"doc-mismatch:variant-index-int64"} THEN {} ELSE f)
+                            ELSE {}
 
 Init == l = 1 /\ lastW = <<>> /\ lastR = <<>> /\ nrej = 0
 
